@@ -59,6 +59,15 @@ Theorem C19_ledger_balanced : forall k s,
   /\ (quiescent s -> w_lg (s_w s) = lg_empty /\ r_lg (s_r s) = lg_empty).
 Proof. exact ledger_balanced. Qed.
 
+(** Every scenario that runs to its end (the script, then the drop of whatever is still alive) ends
+    quiescent: both ledgers are empty — each lowered heap buffer was released exactly once — and every
+    handed value was transferred, returned or dropped. *)
+Theorem C19_completed_run_balanced : forall k acts s ts,
+  run true k acts = (s, ts, OEnd) ->
+  quiescent s /\ w_lg (s_w s) = lg_empty /\ r_lg (s_r s) = lg_empty
+  /\ Permutation (nseq 0 (N.to_nat (w_next (s_w s)))) (w_sent (s_w s) ++ w_ret (s_w s) ++ w_drop (s_w s)).
+Proof. exact completed_run_balanced. Qed.
+
 (** … where the ledgers are, by construction, the folds of [lg_tok_w] / [lg_tok_r] over exactly the
     tokens ([lower], [dealloc_lists], [lift], area new/free, items stored by the host) each action emits. *)
 Theorem C19_ledger_is_fold_of_trace : forall k a s s' t,
@@ -122,6 +131,7 @@ Print Assumptions C19_exactly_once_in_order.
 Print Assumptions C19_counts_reported.
 Print Assumptions C19_values_accounted.
 Print Assumptions C19_ledger_balanced.
+Print Assumptions C19_completed_run_balanced.
 Print Assumptions C19_ledger_is_fold_of_trace.
 Print Assumptions C19_reader_values_accounted.
 Print Assumptions C19_return_code_roundtrip.
